@@ -24,6 +24,8 @@ CHECKS = {
          'runtime monitor: online terminal-state checker (SGR/OSC 8 balance, no split sequences)', '5/C09'),
  'C10': ('exploration', 'stdout(A1..An) compared byte-for-byte with the concatenation of stdout(Ai) for sequences of complete file sections, all ordered pairs of (kind, ending) shapes in the thorough tier; repeated fresh-process runs for determinism',
          'runtime monitor: relational (concatenation / re-run) oracle over section histories', '5/C10'),
+ 'C11': ('exploration', 'input fed line by line with logical quiescence detection (stdin pipe drained and main thread asleep in read(0)); at every prefix: bytes written so far are a prefix of the final output and of an independent run on that prefix, the number of hunk lines held back is bounded by the open run and the buffer size, hook trace shows empty output buffer and bounded line buffers; peak RSS compared for 10^3 vs 10^5 lines',
+         'runtime monitor: paced feeding with /proc-based quiescence + prefix relations + hook-trace invariants', '5/C11'),
  'C12': ('exploration', 'painted cells decoded by the terminal model compared with an independent reference parser of the style language, for 11 style-typed options x enumerated (<=3 tokens over every token class, all 256 palette numbers) and random style strings x 24-bit/256-colour mode; invalid strings must be rejected; --show-config round trip must reproduce the rendering',
          'runtime monitor: reference parser vs painted cells, plus show-config round-trip relation', '5/C12'),
  'C13': ('exploration', 'sentinel placements over the source lattice (command line, [delta], GIT_CONFIG_PARAMETERS, custom features through every enabling mechanism, nested features, built-in feature defaults, --no-gitconfig) resolved by `delta --show-config` and compared with a resolver written from the documentation; every placement re-resolved in fresh processes for determinism',
